@@ -247,7 +247,7 @@ def has_prefix_pair(table):
 
 def run(ctx):
     rng = ctx.rng("c09")
-    roots = ["", "/root", "/r/é"]
+    roots = ["", "/root", "/r/é", "/site/", "/"]  # (a root path with a trailing slash is unusual, but it is the server's to choose)
     if ctx.shard == 0:
         # hand-picked regression tables
         for table, root, path in [([("/a", None), ("", None)], "", "/ab"), ([("/a", None)], "/root", "/a"),
